@@ -21,7 +21,7 @@ func init() {
 	ev.Register(&ev.Check{
 		ID:             "C08",
 		Level:          "exploration",
-		Rule:           "node kinds {integer,float,string,boolean,null,{},{\"k\":1},[],[1],@T} x positions {root, property, array element} x ALL subsets of <= 3 (thorough 4) of the 18 rule names + one unknown name + every duplicated name x parameter variants (ordered/equal/inverted pairs, true/false flags, matching/mismatching types, satisfied/violated by the example) x ALL permutations of the chosen rules. Oracles: (1) permutation invariance of Check's verdict (reference-free); (2) the reference applicability predicate written from the statement (three-valued) incl. 'the example obeys its own rules'. Non-trivial = distinct (kind, position, rule multiset) with >= 1 rule; evaluations count compilations.",
+		Rule:           "node kinds {integer,float,string,boolean,null,{},{\"k\":1},[],[1],@T} x positions {root, property, array element} x ALL subsets of <= 3 (thorough 4) of the 18 rule names + one unknown name + every duplicated name x parameter variants (ordered/equal/inverted pairs, true/false flags, matching/mismatching types, satisfied/violated by the example) x ALL permutations of the chosen rules, under both key-optionality configurations. Oracles: (1) permutation invariance of Check's verdict (reference-free); (2) the reference applicability predicate written from the statement (three-valued) incl. 'the example obeys its own rules'. Non-trivial = distinct (kind, position, rule multiset) with >= 1 rule; evaluations count compilations.",
 		Run:            run,
 		Replay:         replay,
 		QuickBudget:    80 * time.Second,
@@ -149,6 +149,7 @@ type caseT struct {
 	Kind  string     `json:"kind"`
 	Pos   int        `json:"position"`
 	Rules []gen.Rule `json:"rules"`
+	Opt   bool       `json:"keys_optional_by_default,omitempty"`
 }
 
 func (cs caseT) build() (sc.Case, *gen.Node) {
@@ -159,7 +160,7 @@ func (cs caseT) build() (sc.Case, *gen.Node) {
 		}
 	}
 	n.Rules = cs.Rules
-	return sc.Case{Root: wrap(n, wf.Position(cs.Pos)), Types: types}, n
+	return sc.Case{Root: wrap(n, wf.Position(cs.Pos)), Types: types, Opt: cs.Opt}, n
 }
 
 func (cs caseT) check() lib.Res {
@@ -217,6 +218,24 @@ func evalCase(cs caseT) (orderDep bool, dir string, desc string) {
 	return false, "", ""
 }
 
+// evalOpt: the same case under KeysAreOptionalByDefault (the predicate does not depend on the configuration).
+func evalOpt(c *ev.Ctx, k int, cs caseT) {
+	od, dir, _ := evalCase(cs)
+	c.Inc("rule_sets_optional_by_default")
+	if od || dir != "" {
+		red := ev.Reduce(cs, cands, func(x caseT) bool {
+			_, d2, _ := evalCase(x)
+			return d2 == dir
+		})
+		_, _, desc := evalCase(red)
+		cfg := ""
+		if red.Opt {
+			cfg = ";optional-by-default"
+		}
+		c.Violate(fmt.Sprintf("%s;%s;pos=%d;%s%s", dir, red.Kind, red.Pos, ruleKey(red.Rules), cfg), desc, red)
+	}
+}
+
 func ruleKey(rs []gen.Rule) string {
 	var s []string
 	for _, r := range rs {
@@ -234,18 +253,21 @@ func cands(cs caseT) []caseT {
 			hasOpt = hasOpt || r.Name == "optional"
 		}
 		if !hasOpt {
-			out = append(out, caseT{cs.Kind, 0, cs.Rules})
+			out = append(out, caseT{cs.Kind, 0, cs.Rules, cs.Opt})
 		}
 	}
 	for i := range cs.Rules {
 		rs := append(append([]gen.Rule{}, cs.Rules[:i]...), cs.Rules[i+1:]...)
-		out = append(out, caseT{cs.Kind, cs.Pos, rs})
+		out = append(out, caseT{cs.Kind, cs.Pos, rs, cs.Opt})
 	}
 	for _, k := range kinds {
 		if k.name == cs.Kind {
 			break
 		}
-		out = append(out, caseT{k.name, cs.Pos, cs.Rules})
+		out = append(out, caseT{k.name, cs.Pos, cs.Rules, cs.Opt})
+	}
+	if cs.Opt {
+		out = append(out, caseT{cs.Kind, cs.Pos, cs.Rules, false})
 	}
 	return out
 }
@@ -265,7 +287,8 @@ func run(c *ev.Ctx) {
 				if !c.Mine() {
 					return
 				}
-				cs := caseT{ks.name, pos, rules}
+				evalOpt(c, k, caseT{ks.name, pos, rules, true})
+				cs := caseT{ks.name, pos, rules, false}
 				od, dir, _ := evalCase(cs)
 				n := 1
 				for i := 2; i <= len(rules); i++ {
@@ -349,7 +372,7 @@ func ForEachSchema(k int, f func(sc.Case)) {
 		for pos := 0; pos < 3; pos++ {
 			var rec func(start int, cur []gen.Rule)
 			rec = func(start int, cur []gen.Rule) {
-				cs, _ := caseT{ks.name, pos, append([]gen.Rule{}, cur...)}.build()
+				cs, _ := caseT{ks.name, pos, append([]gen.Rule{}, cur...), false}.build()
 				f(cs)
 				if len(cur) == k {
 					return
